@@ -7,9 +7,9 @@ emit(doc, rng=None)   -> YAML text
 """
 import copy
 
-OS_POOL = ["linux", "windows", "bsd", "macos"]
-SRV_POOL = ["ssh", "ftp", "http", "samba", "smtp", "rdp"]
-PROC_POOL = ["tomcat", "daclsvc", "schtask", "cron"]
+OS_POOL = ["linux", "windows", "bsd", "macos", "win", "linux64"]
+SRV_POOL = ["ssh", "ftp", "http", "samba", "smtp", "rdp", "https", "sshd"]
+PROC_POOL = ["tomcat", "daclsvc", "schtask", "cron", "crond"]
 
 SECTION_ORDER = ["subnets", "topology", "sensitive_hosts", "os", "services",
                  "processes", "exploits", "privilege_escalation",
@@ -71,7 +71,7 @@ def _topology(rng, n, shape, n_public):
 
 def gen_doc(rng, shape=None, max_subnets=5, max_hosts=4, n_public=None,
             deny_rate=0.3, open_firewall=None, step_limit="mix",
-            cost_domain="any", big=False):
+            cost_domain="any", big=False, asym=False):
     if big:
         max_subnets, max_hosts = 8, 6
     n = rng.randint(1, max_subnets)
@@ -82,6 +82,15 @@ def gen_doc(rng, shape=None, max_subnets=5, max_hosts=4, n_public=None,
         n_public = rng.choice([1, 1, 1, 2, 2, 3])
     sizes = [rng.randint(1, max_hosts) for _ in range(n)]
     T = _topology(rng, n, shape, n_public)
+    if asym and n >= 2:
+        # outside the documented assumption (the loader accepts it): some
+        # connections between network subnets exist in one direction only
+        for _ in range(rng.randint(1, 3)):
+            a, b = rng.sample(range(1, n + 1), 2)
+            if T[a][b] == 1:
+                T[b][a] = 0
+            else:
+                T[a][b] = 1
     oss = rng.sample(OS_POOL, rng.randint(1, 3))
     srvs = rng.sample(SRV_POOL, rng.randint(1, 4))
     procs = rng.sample(PROC_POOL, rng.randint(1, 3))
@@ -167,7 +176,7 @@ def gen_doc(rng, shape=None, max_subnets=5, max_hosts=4, n_public=None,
     fw = {}
     for i in range(n + 1):
         for j in range(n + 1):
-            if i != j and T[i][j] == 1:
+            if i != j and (T[i][j] == 1 or T[j][i] == 1):
                 if open_firewall or rng.random() < 0.35:
                     allowed = list(srvs)
                 else:
